@@ -127,7 +127,7 @@ def _spans(d, lo, text_lines, unit_file=''):
     out = []
     for s in d.get('spans', []):
         ln = s.get('line_start', 0)
-        if not (s.get('file_name') or '').startswith(unit_file):
+        if os.path.basename(s.get('file_name') or '') != unit_file:
             out.append({'line': ln, 'origin': 'external:%s' % s.get('file_name'), 'text': (s.get('text') or [{}])[0].get('text', '')[:240] if s.get('text') else '',
                         'label': s.get('label'), 'tags': []})
             continue
